@@ -903,7 +903,15 @@ func substSpec(e SExpr, sub map[string]SExpr) SExpr {
 		for _, pe := range x.Pats {
 			pats = append(pats, substSpec(pe, ns))
 		}
-		return &SQuant{x.Forall, x.Vars, substSpec(x.Body, ns), pats}
+		var alts [][]SExpr
+		for _, g := range x.AltPats {
+			var ng []SExpr
+			for _, pe := range g {
+				ng = append(ng, substSpec(pe, ns))
+			}
+			alts = append(alts, ng)
+		}
+		return &SQuant{Forall: x.Forall, Vars: x.Vars, Body: substSpec(x.Body, ns), Pats: pats, AltPats: alts}
 	case *SLet:
 		ns := map[string]SExpr{}
 		for k, v := range sub {
